@@ -44,7 +44,9 @@ func (r *balanceSingleReporter) Process(ln *shared.LogNode) error {
 			}
 		} else {
 			if el.Name == r.singleElement {
-				r.root.AddDeep(shared.NewElement(el.Name, 0), shared.DefaultCategorySeparator)
+				// an element logged directly counts with its own quantity
+				r.root.AddDeep(shared.NewElement(el.Name, el.Value), shared.DefaultCategorySeparator)
+				r.total += el.Value
 			}
 		}
 	}
